@@ -41,7 +41,7 @@ impl Property for C10 {
         "exploration"
     }
     fn rule(&self) -> String {
-        "scenario = (suite, n, t, identifier style, key source dealer/DKG, refresh procedure dealer/DKG, 1-3 consecutive refreshes, remaining \
+        "scenario = (suite, n, t, identifier style, key source dealer/DKG/dealer+repair/lifecycle history, refresh procedure dealer/DKG, 1-3 consecutive refreshes, remaining \
          set R of every size >= t incl. several removed participants, message, seeds). After every refresh: package invariants, a new-only \
          t-subset and the full remaining set sign, EVERY old/new mix over a t-subset (2^t-2 mixes for t <= 4, sampled above) is aggregated \
          against the old and the refreshed public package in all detection modes and hand-summed, a removed participant joins a signer \
@@ -63,8 +63,8 @@ impl Property for C10 {
             (Tier::Thorough, false) => 1200,
             (Tier::Thorough, true) => 150,
         };
-        // strata: key source x procedure
-        (0..4).map(|s| (s, per)).collect()
+        // strata: key source (dealer, DKG, dealer+repair, lifecycle history) x procedure; the two derived sources get half
+        (0..8).map(|s| (s, if s < 4 { per } else { (per / 2).max(1) })).collect()
     }
     fn chunk(&self, suite: SuiteId) -> u32 {
         if suite.slow() { 1 } else { 5 }
@@ -73,7 +73,12 @@ impl Property for C10 {
         128
     }
     fn strategy(&self, suite: SuiteId, tier: Tier, stratum: u32) -> BoxedStrategy<Case> {
-        let source = if stratum & 1 == 0 { KeySource::Dealer } else { KeySource::Dkg };
+        let source = match (stratum & 1, stratum >> 2) {
+            (0, 0) => KeySource::Dealer,
+            (1, 0) => KeySource::Dkg,
+            (0, _) => KeySource::Repaired,
+            _ => KeySource::History(0),
+        };
         let dkg_refresh = stratum & 2 == 2;
         let nmax = match (tier, suite.slow()) {
             (Tier::Quick, false) => 7,
@@ -90,6 +95,8 @@ impl Property for C10 {
         vec![
             ("refresh:dealer".into(), m),
             ("refresh:dkg".into(), m),
+            ("src:dealer+repair".into(), m / 2),
+            ("src:history".into(), m / 2),
             ("removed>=2".into(), m / 2),
             ("removed=0".into(), m / 2),
             ("round>=2".into(), m),
@@ -250,6 +257,7 @@ fn check<C: Suite>(case: &Case, ctx: &mut Ctx) -> CheckResult {
     let shape = Shape { n: case.shape.n.max(2), t: case.shape.t.clamp(2, case.shape.n.max(2)) };
     let (n, t) = (shape.n as usize, shape.t as usize);
     let keys = make_keys::<C>(shape, case.ids, case.source, case.seed, "C10")?;
+    ctx.label(&format!("src:{}", case.source.name()));
     let msg = case.msg.bytes();
     let mut rng = Sm(case.seed ^ 0xc10);
     let vk0 = *keys.pubkeys.verifying_key();
